@@ -313,6 +313,10 @@ class Env:
                     real(message)
                 except Exception as e:          # genuine JSON failure: a destination failure like any other
                     raised, err = True, e
+                    hostile = "hv" in message or (isinstance(message.get("x"), dict) and isinstance(message["x"].get("ser"), Uncopyable))
+                    if proj is not None and not hostile and not proj["why"]:
+                        # every other value this harness logs is JSON-native or a documented rich type: it must be written
+                        proj["why"] = "file_rejected_native_message"
             if env.recording:
                 env.ev.append({"e": "deliver", "d": d, "raised": raised, "abort": fail == 2, "m": proj})
                 env.offered[d].append((dict(message), raised))
